@@ -93,10 +93,23 @@ def run(tier, seed, t0):
 
     # 4. verdict
     doc_fail = [c for c in cargo_fail if c["documented"]]
-    if doc_fail or rc_u != 0 or not facts_ok and facts:
+    fact_failures = []
+    if facts:
+        if facts.group(3) != "true":
+            fact_failures.append(dict(fact="#![no_std] is not an unconditional crate attribute of src/lib.rs (with the std feature the crate would link std)",
+                                      command="grep -n 'no_std' /repo/src/lib.rs"))
+        if int(facts.group(4)) > 0:
+            fact_failures.append(dict(fact=f"{facts.group(4)} `unsafe` token(s) in src/ (the unsafe_code lint can be silenced locally with #[allow])",
+                                      command="grep -rnw unsafe /repo/src"))
+        if int(facts.group(5)) > 0:
+            fact_failures.append(dict(fact=f"{facts.group(5)} mention(s) of std:: / alloc:: / extern crate outside cfg(test)",
+                                      command="grep -rnE '\\b(std|alloc)::|extern crate' /repo/src"))
+    if rc_u != 0:
+        fact_failures.append(dict(fact="the unsafe_code lint fires (or the all-features build fails)", command="cd /repo && cargo check --lib --offline --all-features 2>&1 | grep -B2 -A8 unsafe_code"))
+    if doc_fail or fact_failures:
         body = dict(requirement="the crate compiles and its test-suite passes under every documented feature selection; no unsafe; no_std",
-                    failing_configurations=doc_fail or cargo_fail, unsafe_lint_rc=rc_u, source_facts=ev.splitlines()[-2:] if ev else [],
-                    replay_command=(doc_fail[0]["command"] if doc_fail else "cd /repo && cargo check --lib --offline --all-features 2>&1 | grep unsafe_code"))
+                    failing_configurations=doc_fail or cargo_fail, failing_source_facts=fact_failures,
+                    replay_command=(doc_fail[0]["command"] if doc_fail else fact_failures[0]["command"]))
         path = chk.write_replay(pid, "failing-configuration", body)
         violations.append(f"VIOLATION property={pid} replay={path}")
     elif pfails or ndis != nob or nob == 0 or disagree or summ.get("problems"):
